@@ -285,3 +285,23 @@ def table_struct(name, key_param, byte_position=None):
                              table_key_ref=OdxLinkRef.from_id(key_param.odx_id), table_key_snref=None)
     p._table_key = key_param
     return p
+
+
+from odxtools.parameters.lengthkeyparameter import LengthKeyParameter  # noqa: E402
+from odxtools.paramlengthinfotype import ParamLengthInfoType  # noqa: E402
+
+
+def length_key(name, the_dop, byte_position=None, bit_position=None):
+    p = LengthKeyParameter(oid=None, short_name=name, long_name=None, description=None, semantic=None,
+                           byte_position=byte_position, bit_position=bit_position, sdgs=[],
+                           odx_id=OdxLinkId(f"id.{name}", FRAGS), dop_ref=OdxLinkRef.from_id(the_dop.odx_id),
+                           dop_snref=None)
+    p._dop = the_dop
+    return p
+
+
+def param_length_type(key_param, dt=DataType.A_UINT32, enc=None, hl=None):
+    t = ParamLengthInfoType(base_data_type=dt, base_type_encoding=enc, is_highlow_byte_order_raw=hl,
+                            length_key_ref=OdxLinkRef.from_id(key_param.odx_id))
+    t._length_key = key_param
+    return t
